@@ -11,7 +11,6 @@ import (
 	"sort"
 	"strconv"
 	"strings"
-	"sync"
 	"testing"
 
 	abci "github.com/cometbft/cometbft/abci/types"
@@ -63,31 +62,42 @@ type txfeeEnv struct {
 	nkey    uint64
 	seed    uint64
 	sched   []string // type urls set by the previous case
+	ncase   int
 	collect sdk.AccAddress
 }
 
-var (
-	txfeeOnce sync.Once
-	txfeeE    *txfeeEnv
-)
+var txfeeE *txfeeEnv
+
+// txfeeRecycle: a fresh app after this many transactions (every case commits a block; the
+// in-memory IAVL store keeps every version, so an old app gets slow and large).
+const txfeeRecycle = 400
+
+func txfeeNewEnv(t *testing.T) *txfeeEnv {
+	privVal := mock.NewPV()
+	pubKey, err := privVal.GetPubKey()
+	if err != nil {
+		t.Fatal(err)
+	}
+	valSet := cmttypes.NewValidatorSet([]*cmttypes.Validator{cmttypes.NewValidator(pubKey, 1)})
+	gk := secp256k1.GenPrivKeyFromSecret([]byte("txfee-genesis"))
+	acc := authtypes.NewBaseAccount(gk.PubKey().Address().Bytes(), gk.PubKey(), 0, 0)
+	bal := banktypes.Balance{Address: acc.GetAddress().String(),
+		Coins: sdk.NewCoins(sdk.NewInt64Coin(sdk.DefaultBondDenom, 100_000_000_000_000))}
+	a := app.SetupWithGenesisValSet(t, ChainID, valSet, []authtypes.GenesisAccount{acc}, bal)
+	e := &txfeeEnv{t: t, app: a, height: a.LastBlockHeight() + 1, nextAcc: 1_000_000}
+	e.collect = authtypes.NewModuleAddress(authtypes.FeeCollectorName)
+	return e
+}
 
 func txfeeSetup(t *testing.T) *txfeeEnv {
-	txfeeOnce.Do(func() {
-		privVal := mock.NewPV()
-		pubKey, err := privVal.GetPubKey()
-		if err != nil {
-			t.Fatal(err)
+	if txfeeE == nil || txfeeE.ncase >= txfeeRecycle {
+		var seed, nkey uint64
+		if txfeeE != nil {
+			seed, nkey = txfeeE.seed, txfeeE.nkey
 		}
-		valSet := cmttypes.NewValidatorSet([]*cmttypes.Validator{cmttypes.NewValidator(pubKey, 1)})
-		gk := secp256k1.GenPrivKeyFromSecret([]byte("txfee-genesis"))
-		acc := authtypes.NewBaseAccount(gk.PubKey().Address().Bytes(), gk.PubKey(), 0, 0)
-		bal := banktypes.Balance{Address: acc.GetAddress().String(),
-			Coins: sdk.NewCoins(sdk.NewInt64Coin(sdk.DefaultBondDenom, 100_000_000_000_000))}
-		a := app.SetupWithGenesisValSet(t, ChainID, valSet, []authtypes.GenesisAccount{acc}, bal)
-		e := &txfeeEnv{t: t, app: a, height: a.LastBlockHeight() + 1, nextAcc: 1_000_000}
-		e.collect = authtypes.NewModuleAddress(authtypes.FeeCollectorName)
-		txfeeE = e
-	})
+		txfeeE = txfeeNewEnv(t)
+		txfeeE.seed, txfeeE.nkey = seed, nkey
+	}
 	txfeeE.t = t
 	return txfeeE
 }
@@ -618,6 +628,7 @@ func (e *txfeeEnv) signTxNoCtx(op *txfeeOp, k *txfeeKeys, msgs []sdk.Msg) (bz []
 }
 
 func (e *txfeeEnv) emit(out *Out, op *txfeeOp) {
+	e.ncase++
 	var obs, res string
 	res = Guard(func() string {
 		o, r := e.run(op)
@@ -636,8 +647,8 @@ func (e *txfeeEnv) emit(out *Out, op *txfeeOp) {
 }
 
 func replayTxfee(t *testing.T, ops []string, out *Out) {
-	e := txfeeSetup(t)
 	for _, l := range ops {
+		e := txfeeSetup(t)
 		if strings.HasPrefix(l, "#") {
 			out.Comment(strings.TrimPrefix(l, "# "))
 			continue
@@ -652,10 +663,9 @@ func replayTxfee(t *testing.T, ops []string, out *Out) {
 }
 
 func driveTxfee(t *testing.T, rng *RNG, n int, out *Out) {
-	e := txfeeSetup(t)
-	e.seed = rng.U64()
+	txfeeSetup(t).seed = rng.U64()
 	for i := 0; i < n; i++ {
 		op := txfeeGen(rng, out)
-		e.emit(out, op)
+		txfeeSetup(t).emit(out, op)
 	}
 }
